@@ -167,6 +167,9 @@ struct Opts {
     final_only: bool,
     nested: bool,
     before_pages: bool,
+    /// a builder is an object that may be re-targeted: the setter is first called with another value
+    decoy_pcid: Option<u16>,
+    decoy_asid: Option<u16>,
 }
 
 fn invlpgb_case<S: x86_64::structures::paging::page::NotGiantPageSize>(rep: &mut Report, tag: &str, start: u64, npages: u64, max: u16, o: &Opts, cls: &str) {
@@ -187,9 +190,15 @@ fn invlpgb_case<S: x86_64::structures::paging::page::NotGiantPageSize>(rep: &mut
         if o.before_pages {
             let mut b = inv.build();
             if let Some(p) = o.pcid {
+                if let Some(d) = o.decoy_pcid {
+                    unsafe { b.pcid(Pcid::new(d).unwrap()) };
+                }
                 unsafe { b.pcid(Pcid::new(p).unwrap()) };
             }
             if let Some(a) = o.asid {
+                if let Some(d) = o.decoy_asid {
+                    let _ = unsafe { b.asid(d) };
+                }
                 let _ = unsafe { b.asid(a) };
             }
             if o.global {
@@ -203,9 +212,15 @@ fn invlpgb_case<S: x86_64::structures::paging::page::NotGiantPageSize>(rep: &mut
         } else {
             let mut b = inv.build().pages(range);
             if let Some(p) = o.pcid {
+                if let Some(d) = o.decoy_pcid {
+                    unsafe { b.pcid(Pcid::new(d).unwrap()) };
+                }
                 unsafe { b.pcid(Pcid::new(p).unwrap()) };
             }
             if let Some(a) = o.asid {
+                if let Some(d) = o.decoy_asid {
+                    let _ = unsafe { b.asid(d) };
+                }
                 let _ = unsafe { b.asid(a) };
             }
             if o.global {
@@ -312,6 +327,8 @@ fn invlpgb_tests(rep: &mut Report, r: &mut Rng) {
         final_only: r.chance(1, 2),
         nested: r.chance(1, 3),
         before_pages: r.chance(1, 2),
+        decoy_pcid: if r.chance(1, 3) { Some((r.next() & 0xfff) as u16) } else { None },
+        decoy_asid: if r.chance(1, 3) { Some(r.next() as u16) } else { None },
     };
     let two_m = r.chance(1, 3);
     let size: u64 = if two_m { 0x20_0000 } else { 0x1000 };
